@@ -627,11 +627,10 @@ Proof.
         -- discriminate.
         -- discriminate.
         -- cbn [st_ok no_err_p]. destruct r; auto; discriminate.
-        -- now rewrite Iq.
         -- rewrite Hr. discriminate.
         -- intros i x Hi. apply in_or_app. left. now apply Isp.
         -- rewrite Hr. discriminate.
-        -- rewrite F7. cbn [option_map]. rewrite Hr in Ipend. exact Ipend.
+        -- rewrite F7, Hr. exact Ipend.
     + (* no call inline: this one becomes the inline call *)
       exists gw, (gq ++ [(id, QWait (wadd (base s) (lenN (queue s))))]).
       apply (push_inv _ s gw gq _ id _ (QWait (wadd (base s) (lenN (queue s)))) _ I Ho Hlen Hfresh);
@@ -646,3 +645,265 @@ Proof.
         -- apply N.eqb_eq in Hi. subst i. now left.
         -- apply Ipend in Hi as [Hi|Hi]; [congruence|now right].
 Qed.
+
+(* ------------------------------------------------------------------ *)
+(* a deferred handler completes *)
+
+Lemma NoDup_app_r {A} (l1 l2 : list A) : NoDup (l1 ++ l2) -> NoDup l2.
+Proof. induction l1 as [|x l1 IH]; cbn [app]; auto. intros H. inversion H; auto. Qed.
+
+Lemma lookup_In id l :
+  In id (map fst l) -> exists x, lookup_spawned id l = Some x /\ In (id, x) l.
+Proof.
+  induction l as [|[i x] l IH]; cbn [map fst In lookup_spawned]; [intros []|].
+  destruct (N.eqb_spec i id) as [->|Hne].
+  - intros _. exists x. auto.
+  - intros [H|H]; [contradiction|]. destruct (IH H) as (y & H1 & H2). exists y. auto.
+Qed.
+
+Lemma remove_In id l p : In p (remove_spawned id l) -> In p l.
+Proof.
+  induction l as [|[i x] l IH]; cbn [remove_spawned In]; auto.
+  destruct (i =? id); cbn [In]; intuition.
+Qed.
+
+Lemma remove_ne id l i x : NoDup (map fst l) -> In (i, x) (remove_spawned id l) -> i <> id.
+Proof.
+  induction l as [|[j y] l IH]; cbn [remove_spawned map fst In]; [intros _ []|].
+  intros Hnd. inversion Hnd as [|? ? H1 H2]; subst.
+  destruct (N.eqb_spec j id) as [->|Hne].
+  - intros Hi ->. apply H1. apply in_map_iff. exists (id, x). auto.
+  - intros [Hi|Hi]; [congruence|auto].
+Qed.
+
+Lemma remove_keep id l i : In i (map fst l) -> i <> id -> In i (map fst (remove_spawned id l)).
+Proof.
+  induction l as [|[j y] l IH]; cbn [remove_spawned map fst In]; auto.
+  intros [->|Hi] Hne.
+  - destruct (N.eqb_spec i id); [contradiction|now left].
+  - destruct (j =? id); auto. right. auto.
+Qed.
+
+Lemma remove_sub id l i : In i (map fst (remove_spawned id l)) -> In i (map fst l).
+Proof.
+  intros H. apply in_map_iff in H as (p & <- & H). apply in_map. now apply remove_In in H.
+Qed.
+
+Lemma remove_NoDup id l : NoDup (map fst l) -> NoDup (map fst (remove_spawned id l)).
+Proof.
+  induction l as [|[j y] l IH]; cbn [remove_spawned map fst]; auto.
+  intros Hnd. inversion Hnd as [|? ? H1 H2]; subst.
+  destruct (j =? id); auto. cbn [map fst]. constructor; auto.
+  intros H. apply H1. now apply remove_sub in H.
+Qed.
+
+(* what a well-formed completion of [id] changes in the history *)
+Lemma done_facts ops s gw gq id r x l1 l2 :
+  Inv ops s gw gq -> gq = l1 ++ (id, QWait x) :: l2 ->
+  let o := Done id r in
+  let h' := hist (ops ++ [o]) in
+  arrivals h' = arrivals (hist ops) /\
+  done_in id h' = Some (ans_of_p r) /\
+  (forall i y, In (i, y) gw -> done_in i h' = Some (ans_of_p y)) /\
+  (forall i st, In (i, st) (l1 ++ l2) -> done_in i h' = st_done st) /\
+  (forall i, done_in i h' <> None -> In i (arrivals h')) /\
+  pend_after [] h' = filter (fun j => negb (j =? id)) (pend_after [] (hist ops)) /\
+  forallb no_err_p (ops ++ [o]) = forallb no_err_p ops && no_err_p o /\
+  (forall i st, In (i, st) gq -> i <> id -> In (i, st) (l1 ++ l2)) /\
+  (forall i st, In (i, st) (l1 ++ l2) -> In (i, st) gq).
+Proof.
+  intros [Ib Iq Ih Ipos Ipan Iinl Isp Ind Ini Iarr IndA Iw Iqs Id Ipend Ilen Iout Iok] Hg o h'.
+  assert (Hh' : h' = hist ops ++ [EDone id (ans_of_p r)]).
+  { unfold h', hist. rewrite map_app. reflexivity. }
+  assert (Hin : In (id, QWait x) gq) by (rewrite Hg; apply in_elt).
+  assert (Hd0 : done_in id (hist ops) = None) by (apply (Iqs _ _ Hin)).
+  assert (Harr' : arrivals h' = arrivals (hist ops)).
+  { rewrite Hh', arrivals_app. cbn [arrivals]. apply app_nil_r. }
+  assert (Hoth : forall i, i <> id -> done_in i h' = done_in i (hist ops)).
+  { intros i Hi. rewrite Hh'. apply done_in_snoc_other. cbn [ev_id]. congruence. }
+  assert (Hothers : forall i st, In (i, st) (l1 ++ l2) -> i <> id).
+  { intros i st Hi ->. rewrite Iarr, Hg in IndA. apply NoDup_app_r in IndA.
+    rewrite map_app in IndA. cbn [map fst] in IndA. apply NoDup_remove_2 in IndA.
+    apply IndA. rewrite <- map_app. apply in_map_iff. exists (id, st). auto. }
+  assert (Hback : forall i st, In (i, st) (l1 ++ l2) -> In (i, st) gq).
+  { intros i st Hi. rewrite Hg. now apply in_mid. }
+  repeat split.
+  - exact Harr'.
+  - rewrite Hh'. now apply done_in_snoc_done.
+  - intros i y Hi. rewrite Hoth; [now apply Iw|]. intros ->. apply Iw in Hi. congruence.
+  - intros i st Hi. rewrite Hoth; [|now apply Hothers in Hi]. now apply Iqs, Hback.
+  - intros i Hi. rewrite Harr'. destruct (N.eq_dec i id) as [->|Hne].
+    + rewrite Iarr. apply in_or_app. right. apply in_map_iff. exists (id, QWait x). auto.
+    + apply Id. now rewrite <- Hoth.
+  - rewrite Hh', pend_after_snoc. reflexivity.
+  - rewrite forallb_app. cbn [forallb]. now rewrite andb_true_r.
+  - intros i st Hi Hne. rewrite Hg in Hi. apply in_elt_inv in Hi as [Hi|Hi]; auto.
+    injection Hi as Hi _. congruence.
+  - exact Hback.
+Qed.
+
+Lemma step_done ops s gw gq id r :
+  Inv ops s gw gq -> N.of_nat (length (ops ++ [Done id r])) < W64 ->
+  mem id (pend_after [] (hist ops)) = true ->
+  exists gw' gq', Inv (ops ++ [Done id r]) (complete s id r) gw' gq'.
+Proof.
+  intros I Hlen Hp.
+  pose proof I as [Ib Iq Ih Ipos Ipan Iinl Isp Ind Ini Iarr IndA Iw Iqs Id Ipend Ilen Iout Iok].
+  rewrite app_length in Hlen. cbn [length] in Hlen.
+  assert (Hlen' : N.of_nat (length gq) < W64) by lia.
+  assert (Hsp : response s <> Some id -> In id (map fst (spawned s)) ->
+    exists gw' gq', Inv (ops ++ [Done id r])
+      match lookup_spawned id (spawned s) with
+      | Some ridx =>
+        handle_result (mkRq (base s) (queue s) (response s) (response_idx s) (error s)
+                            (remove_spawned id (spawned s)) (out s) (panicked s)) r ridx
+      | None => s
+      end gw' gq').
+  { intros Hr Hin. destruct (lookup_In _ _ Hin) as (x & -> & Hx).
+    destruct (in_split _ _ (Isp _ _ Hx)) as (l1 & l2 & Hg).
+    destruct (done_facts _ _ _ _ _ r _ _ _ I Hg) as (F1 & F2 & F3 & F4 & F5 & F6 & F7 & F8 & F9).
+    subst gq.
+    apply (mid _ _ gw l1 id x l2 r); cbn [base queue response response_idx error spawned out panicked]; auto.
+    - intros i Hi. apply F8; [now apply Iinl|congruence].
+    - intros i y Hi. pose proof (remove_ne _ _ _ _ Ind Hi). apply remove_In in Hi. apply F8; auto.
+    - now apply remove_NoDup.
+    - intros i Hi Hi'. apply remove_sub in Hi'. now apply (Ini i).
+    - now rewrite F1.
+    - now rewrite F1.
+    - rewrite F6. intros i Hi. apply mem_filter_ne in Hi as [Hi Hne].
+      apply Ipend in Hi as [Hi|Hi]; auto. right. now apply remove_keep.
+    - rewrite (app_length ops). cbn [length]. lia.
+    - rewrite F7. intros Hne. apply andb_true_iff in Hne as [Hne1 Hne2].
+      destruct (Iok Hne1) as [He Hf]. repeat split; auto.
+      + intros ->. discriminate.
+      + rewrite Forall_forall in *. intros [i st] Hi. apply Hf. now apply F9. }
+  unfold complete.
+  destruct (response s) as [i0|] eqn:Hr.
+  - destruct (N.eqb_spec i0 id) as [->|Hne].
+    + (* the inline call *)
+      destruct (in_split _ _ (Iinl _ eq_refl)) as (l1 & l2 & Hg).
+      destruct (done_facts _ _ _ _ _ r _ _ _ I Hg) as (F1 & F2 & F3 & F4 & F5 & F6 & F7 & F8 & F9).
+      subst gq.
+      apply (mid _ _ gw l1 id (response_idx s) l2 r);
+        cbn [base queue response response_idx error spawned out panicked]; auto.
+      * discriminate.
+      * intros i y Hi. apply F8; [now apply Isp|]. intros ->. apply (Ini id eq_refl).
+        apply in_map_iff. exists (id, y). auto.
+      * discriminate.
+      * now rewrite F1.
+      * now rewrite F1.
+      * rewrite F6. intros i Hi. apply mem_filter_ne in Hi as [Hi Hne].
+        apply Ipend in Hi as [Hi|Hi]; auto. congruence.
+      * rewrite (app_length ops). cbn [length]. lia.
+      * rewrite F7. intros Hne. apply andb_true_iff in Hne as [Hne1 Hne2].
+        destruct (Iok Hne1) as [He Hf]. repeat split; auto.
+        -- intros ->. discriminate.
+        -- rewrite Forall_forall in *. intros [i st] Hi. apply Hf. now apply F9.
+    + apply Hsp; [congruence|]. apply Ipend in Hp as [Hp|Hp]; [congruence|auto].
+  - apply Hsp; [congruence|]. apply Ipend in Hp as [Hp|Hp]; [congruence|auto].
+Qed.
+
+(* ------------------------------------------------------------------ *)
+(* every run *)
+
+Lemma inv_init b : b < W64 -> Inv [] (rq_at_p b) [] [].
+Proof.
+  intros Hb. constructor; cbn [rq_at_p base queue response response_idx error spawned out panicked
+    hist map arrivals done_in pend_after mem flat_map length]; auto; try discriminate; try constructor.
+  - intros [|j] i x E; discriminate.
+  - intros i x [].
+  - intros i st [].
+  - intros i E. congruence.
+Qed.
+
+Lemma inv_run b ops :
+  b < W64 -> N.of_nat (length ops) < W64 -> wf_history (hist ops) = true ->
+  exists gw gq, Inv ops (run_from (rq_at_p b) ops) gw gq.
+Proof.
+  intros Hb. induction ops as [|o ops IH] using rev_ind; intros Hlen Hwf.
+  - exists [], []. now apply inv_init.
+  - unfold hist, wf_history in Hwf. rewrite map_app, wf_go_app in Hwf.
+    apply andb_true_iff in Hwf as [Hwf1 Hwf2].
+    destruct IH as (gw & gq & I);
+      [rewrite app_length in Hlen; cbn [length] in Hlen; lia | exact Hwf1 |].
+    unfold run_from. rewrite fold_left_app. cbn [fold_left]. fold (run_from (rq_at_p b) ops).
+    fold (hist ops) in Hwf2.
+    destruct o as [id now|id r]; cbn [step map ev_of_p wf_go] in *.
+    + apply andb_true_iff in Hwf2 as [Hwf2 _]. apply negb_true_iff in Hwf2.
+      apply step_arrive with gw gq; auto.
+      intros Hin. apply arr_after_In with (A := []) in Hin. apply mem_true_iff in Hin. congruence.
+    + apply andb_true_iff in Hwf2 as [Hwf2 _].
+      apply step_done with gw gq; auto.
+Qed.
+
+Lemma wp_app gw rest h :
+  (forall i x, In (i, x) gw -> done_in i h = Some (ans_of_p x)) ->
+  written_prefix (map fst gw ++ rest) h = flat_map outp gw ++ written_prefix rest h.
+Proof.
+  induction gw as [|[i x] gw IH]; intros H; cbn [map fst app written_prefix flat_map]; auto.
+  rewrite (H i x) by now left. rewrite IH by (intros; apply H; now right).
+  destruct x; reflexivity.
+Qed.
+
+Lemma fm_resp gw h :
+  (forall i x, In (i, x) gw -> done_in i h = Some (ans_of_p x)) ->
+  flat_map (resp_of h) (map fst gw) = flat_map outp gw.
+Proof.
+  induction gw as [|[i x] gw IH]; intros H; cbn [map fst flat_map]; auto.
+  rewrite IH by (intros; apply H; now right). unfold resp_of at 1.
+  rewrite (H i x) by now left. destruct x; reflexivity.
+Qed.
+
+(* ------------------------------------------------------------------ *)
+(* the three results used by Props/C04.v *)
+
+Theorem resp_order : forall (b : N) (ops : list op),
+  b < W64 -> N.of_nat (length ops) < W64 -> forallb no_err_p ops = true ->
+  wf_history (map ev_of_p ops) = true ->
+  let s := run_from (rq_at_p b) ops in
+  out s = spec_written (map ev_of_p ops) /\ panicked s = false /\ error s = false.
+Proof.
+  intros b ops Hb Hlen Hne Hwf s.
+  destruct (inv_run b ops Hb Hlen Hwf) as (gw & gq & I). fold s in I.
+  destruct I as [Ib Iq Ih Ipos Ipan Iinl Isp Ind Ini Iarr IndA Iw Iqs Id Ipend Ilen Iout Iok].
+  destruct (Iok Hne) as [He Hf]. repeat split; auto.
+  unfold spec_written. fold (hist ops). rewrite Iarr, wp_app by exact Iw. rewrite Iout.
+  enough (written_prefix (map fst gq) (hist ops) = []) as -> by now rewrite app_nil_r.
+  destruct gq as [|[i st] t]; auto. cbn [map fst written_prefix].
+  rewrite (Iqs i st) by now left.
+  destruct st as [x|r|]; cbn [st_done]; auto.
+  - contradiction Ih.
+  - inversion Hf as [|? ? Hs _]. contradiction Hs.
+Qed.
+
+Theorem resp_complete : forall (b : N) (ops : list op),
+  b < W64 -> N.of_nat (length ops) < W64 -> forallb no_err_p ops = true ->
+  wf_history (map ev_of_p ops) = true ->
+  all_done (arrivals (map ev_of_p ops)) (map ev_of_p ops) = true ->
+  out (run_from (rq_at_p b) ops) =
+    flat_map (fun i => match done_in i (map ev_of_p ops) with Some (ASome x) => [x] | _ => [] end)
+             (arrivals (map ev_of_p ops)).
+Proof.
+  intros b ops Hb Hlen Hne Hwf Had.
+  destruct (resp_order b ops Hb Hlen Hne Hwf) as [H _]. rewrite H.
+  exact (written_all_done _ _ Had).
+Qed.
+
+Theorem prefix_after_error : forall (b : N) (ops : list op),
+  b < W64 -> N.of_nat (length ops) < W64 -> wf_history (map ev_of_p ops) = true ->
+  exists rest, out (run_from (rq_at_p b) ops) ++ rest =
+    flat_map (fun i => match done_in i (map ev_of_p ops) with Some (ASome x) => [x] | _ => [] end)
+             (arrivals (map ev_of_p ops)).
+Proof.
+  intros b ops Hb Hlen Hwf.
+  destruct (inv_run b ops Hb Hlen Hwf) as (gw & gq & I).
+  destruct I as [Ib Iq Ih Ipos Ipan Iinl Isp Ind Ini Iarr IndA Iw Iqs Id Ipend Ilen Iout Iok].
+  exists (flat_map (resp_of (hist ops)) (map fst gq)).
+  change (out (run_from (rq_at_p b) ops) ++ flat_map (resp_of (hist ops)) (map fst gq) =
+          flat_map (resp_of (hist ops)) (arrivals (hist ops))).
+  rewrite Iarr, flat_map_app, Iout, fm_resp; auto.
+Qed.
+
+Print Assumptions resp_order.
+Print Assumptions resp_complete.
+Print Assumptions prefix_after_error.
